@@ -251,6 +251,9 @@ def check(cx):
         cx.verdict(not g.success_returns_from(0, blocked=snd), r5, owner + ":result-sent", g.where(),
                    "the result is sent on every path", "a job closure of %s can finish without sending the result: the submitter blocks forever" % owner)
     waiters = [(h, c) for h in runner_fns if h.kind != "closure" for c in h.calls() if ("mpsc::Receiver" in c.callee and c.callee.endswith("::recv"))]
+    # a helper that is handed the Receiver and waits on it (`wait_for_outcome(&rx)`): its callers wait there
+    recv_helpers = {h.id for h, c in waiters if any("mpsc::Receiver" in h.locals[i] for i in range(1, h.nargs + 1))}
+    waiters += [(h, c) for h in runner_fns if h.kind != "closure" for c in h.calls() if c.callee in recv_helpers]
     if len(waiters) < 1:
         cx.bad(r5, "recv:anchor-missing", "", "no SharedTaskRunner method waits on a result channel")
     # (2) is a property of the function that contains the recv, wherever it was factored to
